@@ -71,4 +71,44 @@ REGISTRY = {
         rule=('R-CONST per constant; R-DISPATCH per (function, class, parameter count, private); R-FSM per (reference state, class, mode) care entry and '
               'per (class, flag) of the feed wrapper; R-CAP per parameter push'),
     ),
+    'C19': dict(
+        modules=['rules_c19'],
+        engine='E0+E2+E3+E4+E5',
+        explanation=(
+            'Decided on the shipping recogniser: D1 R-FSM - the OSC sub-automaton (both introducers, code byte, string state, ESC pairing) is simulated '
+            'by the reference automaton for every character class: terminators are exactly BEL, U+009C and ESC \\; every other character stays in the '
+            'string state; no listener call other than set_icon_name / set_title is made in any OSC state (so nothing is drawn and the cursor does not move). '
+            'D2 payload data path from the generalised string state: every non-ESC character is appended exactly once, ESC is not appended; on each of the '
+            'three terminators the outcomes are exactly {nothing, icon, title, icon+title}, selected by the code tests "01" / "02", and the argument is '
+            'payload.chars().skip(1).collect() with no other truncation; witnesses (ESC ] 0 ; a b BEL etc., from the generalised ESC state) give the exact '
+            'strings incl. backslash, ;, space, non-ASCII and the empty payload. set_title / set_icon_name write only their field and store the argument '
+            'verbatim. D3 R-CONST for ST, ST_C0, ST_C1, OSC_TERMINATORS. Don\'t-care: ESC x pairs inside a payload, multi-digit codes.'),
+        level_text=('Automaton extraction by abstract interpretation over all character classes plus symbolic data-path clauses for the payload, compared '
+                    'with a reference written from the standard rather than from the repository\'s own (previously wrong) constants.'),
+        assumes='A-GEN, A-LIB, A-TOOL',
+        not_decided='Not decided: behaviour on ESC x pairs inside a payload and multi-digit codes (statement silent).',
+        technique='finite-domain abstract interpretation (automaton extraction) + string-provenance data-path rules + may-write frames',
+        rule='R-CONST per constant; R-FSM per care transition of the OSC states and per payload/terminator clause; R-FRAME / R-COPY per setter',
+    ),
+    'C20': dict(
+        modules=['rules_c20'],
+        engine='E0+E2+E3+E4+E5',
+        explanation=(
+            'D1 R-CONST - all 4x256 entries of LAT1_MAP, VT100_MAP, IBMPC_MAP, VAX42_MAP, read after rustc evaluated the const initialisers, equal '
+            'reference/charsets.json (Latin-1 identity; DEC graphics per the Linux console table pyte documents, transcribed independently; CP437 per the Linux '
+            'console table with the high half generated from Python\'s cp437 codec; VAX42 = CP437 with its 8 substitutions, frozen from reviewed values); '
+            'MAPS = {B,0,U,V}. D2 - new/reset leave G0 active with G0=Latin-1 and G1=DEC graphics (the stored tables are compared entry by entry); '
+            'shift_out/shift_in select G1/G0 and write nothing else; define_charset installs MAPS[code] into G0 for "(" and G1 for ")" and does nothing for any '
+            'other code/mode (decision table over 36 code x mode classes). D3 - the per-character mapping closure of draw, applied abstractly to '
+            'representative code points (incl. 0x00, 0x5f, 0x7e, 0xff, 0x100, astral) under each active set with distinguishable tables, returns table[c] '
+            'for c <= 255 and c itself above. D4 R-FSM - ESC ( X / ESC ) X reach define_charset(X, kind) and SO/SI reach shift_out/in iff the parser is '
+            'in 8-bit mode; they are consumed without effect in UTF-8 mode. NOT decided: nothing of substance beyond the trusted base.'),
+        level_text=('Entry-by-entry comparison of the compiler-evaluated tables with an independently sourced reference, decision-table extraction for '
+                    'define_charset, abstract application of the translation closure, and automaton extraction for the designator / shift paths - all 1024 '
+                    'entries and every designator class, not three sampled bytes.'),
+        assumes='A-GEN, A-LIB, A-PUB, A-TOOL',
+        not_decided='The 8 VAX42 substitutions have no independent offline source (frozen reviewed values).',
+        technique='evaluated-constant table comparison + decision-table / automaton extraction by abstract interpretation',
+        rule='R-CONST per table (256 entries each); R-TABLE MAPS; R-STATE per function; R-DISPATCH per (code, mode); R-TRANSLATE per (code point, active set, tables); R-FSM per care transition',
+    ),
 }
